@@ -7,7 +7,7 @@ IDS = ["C%02d" % i for i in range(1, 21)]
 CHECKS = {
     "C01": dict(
         technique="differential execution inside TLC: Exec.tla (small-step wasm-subset semantics, one state per instruction) runs input and output module over the same call sequence and compares observations",
-        text="Exec.tla interprets an i32 subset (locals, globals, structured control, br/br_if/br_table, call, call_indirect, byte/word loads and stores on several memories, host calls, instantiation with active segments and a start function). For each generated module of the subset and each fixture in it, TLC instantiates and executes the input and the walrus output on one instance each over the same calls (every exported function, twice) and requires equal instantiation outcome, results/traps, host-call trace and exported globals/memories/tables. Body.tla supplies the design-level fact that elision preserves order.",
+        text="Exec.tla interprets an i32 subset (locals, globals, structured control, br/br_if/br_table, call, call_indirect, byte/word loads and stores on several memories, host calls, instantiation with active segments and a start function). For each generated module of the subset and each fixture in it, TLC instantiates and executes the input and the walrus output on one instance each over the same calls (every exported function, twice) and requires equal instantiation outcome, results/traps, host-call trace and exported globals/memories/tables. Body.tla supplies the design-level fact that elision preserves order. In addition every valid control string (if/else/block/br/br_if/br_table/return/unreachable, nesting <= 3) up to length 7 enumerated from Body.tla is made executable (a host-call marker before every symbol, conditions taken from the argument bits) and run for all 8 condition vectors; multi-table modules exercise call_indirect per table; the import linkage (module, field, kind) of input and output is compared; an output that leaves the executable subset of its input is reported.",
         note="Trusted: TLC; the projection of binaries into Exec programs (wasmparser). Values are in Z/2^15; the subset excludes floats, SIMD, atomics, 64-bit and reference instructions - for those C01 follows from C03 (every operator/immediate/operand preserved) and C04. Function identity across the round trip is read off walrus's index maps.",
         design_ref="DESIGN.md §5 C01"),
     "C05": dict(
@@ -21,18 +21,18 @@ CHECKS = {
         note="Trusted: TLC, 64-bit digests. Real thread-pool schedules are sampled, not controlled; exhaustiveness is on the model side.",
         design_ref="DESIGN.md §5 C09"),
     "C10": dict(
-        technique="row / subprogram relation judged by TLC (Trace_Dwarf.tla) on modules with synthesized DWARF (gimli::write) read back with gimli::read, relative to the code transform judged by C11",
+        technique="row / subprogram relation judged by TLC (Trace_Dwarf.tla) on modules with synthesized DWARF (gimli::write) read back with gimli::read, relative to the code transform judged by C11; design level: Layout.tla (the DWARF address conversion of debug/expression.rs transcribed and checked over every small code-section configuration)",
         text="For generated modules, fixtures and many-function modules the harness synthesizes well-formed DWARF (v4 and v5, one subprogram per function, one row per instruction whose line number names the instruction, per-function and spanning sequences), runs parse;[gc|edit];emit with DWARF generation on and reads rows and subprograms back; TLC requires each output row at the start of the output instruction its instruction became with equal file/column/is_stmt, every surviving instruction's row exactly once, rows and subprograms of removed code absent or tombstoned, and each subprogram range equal to the function's output entry.",
         note="Trusted: gimli 0.26 (writer and reader), wasmparser, TLC. low_pc convention: start of the function's code-section entry. v5 rows naming file 0 are not synthesized. Two known findings about sequences spanning several functions.",
         design_ref="DESIGN.md §5 C10"),
     "C11": dict(
-        technique="exactness relation on the CodeTransform (monotone, name-preserving, onto map per function; ranges; section start) judged by TLC (Trace_Xform.tla) against independently decoded layouts",
+        technique="exactness relation on the CodeTransform (monotone, name-preserving, onto map per function; ranges; section start) judged by TLC (Trace_Xform.tla) against independently decoded layouts; design level: Layout.tla (PairsJoinSameInstruction, NoPairForUnwritten, RangesTile over every small configuration)",
         text="With preserve_code_transform on, a probe custom section records the CodeTransform it is handed; TLC checks per kept function that the pairs form a strictly increasing, name-preserving map from input operator starts onto all output operator starts except inserted ones, that every function range is the output entry [size LEB, end), that code_section_start is the offset of the code section's contents, and that no pair refers to code that was not emitted - for unchanged, GC'd and builder-edited modules, TLC-enumerated control strings, fixtures, many-function modules and a real-world module.",
         note="Trusted: wasmparser offsets, TLC. Which output operators are 'inserted' is determined from a marker constant (edits) and from if/else structure (the else walrus adds).",
         design_ref="DESIGN.md §5 C11"),
     "C15": dict(
-        technique="trace validation of TLC-enumerated build histories against Builder.tla (re-executed by TLC, Flatten computed in TLA+), design invariants TreeShaped/FlatBalanced/BranchesInRange",
-        text="Builder.tla models the FunctionBuilder arena (append and positional insert of stack-neutral units, block_at/loop_at/if_else_at, dangling sequences attached later, br/br_if to enclosing sequences) and defines the in-order flattening with label depths. TLC enumerates every build history up to the bound (and random longer walks); each is replayed on the real builder (closure API at the end of a sequence, *_at API elsewhere), finished and emitted; the trace spec re-executes the history with the same actions and requires the decoded body to equal Flatten modulo an injective, type-preserving local map with the parameter pinned.",
+        technique="trace validation of TLC-enumerated build histories against Builder.tla (re-executed by TLC, Flatten computed in TLA+), design invariants TreeShaped/FlatBalanced/BranchesInRange; Locals.tla (slot assignment) model-checked and its behaviours replayed through FunctionBuilder (Trace_Locals.tla)",
+        text="Builder.tla models the FunctionBuilder arena (append and positional insert of stack-neutral units, block_at/loop_at/if_else_at, dangling sequences attached later, br/br_if to enclosing sequences) and defines the in-order flattening with label depths. TLC enumerates every build history up to the bound (and random longer walks); each is replayed on the real builder (closure API at the end of a sequence, *_at API elsewhere), finished and emitted; the trace spec re-executes the history with the same actions and requires the decoded body to equal Flatten modulo an injective, type-preserving local map with the parameter pinned. Histories also attach dangling sequences as if/else arms, place br_table, use two parameters allocated out of id order; structure-only histories one step longer are enumerated separately. Locals.tla: locals allocated in any order, any of them parameters, the body naming some; the emitted slots must pin parameters, be injective and type preserving.",
         note="Trusted: wasmparser operator decoding, TLC. Units are stack-neutral by construction, so every enumerated tree is well typed; other instruction kinds are covered by C03.",
         design_ref="DESIGN.md §5 C15"),
     "C16": dict(
@@ -41,7 +41,7 @@ CHECKS = {
         note="Trusted: TLC. Stack-depth independence is observed, not modelled (beyond the absence of recursion in the transcribed algorithms).",
         design_ref="DESIGN.md §5 C16"),
     "C02": dict(
-        technique="TLC invariants NoPanic / WFInvariant / EmittedBalanced on the pipeline, edit and body models; validity monitor (Trace_Valid.tla) and trace validation of TLC-generated edit histories (Trace_Edits.tla)",
+        technique="TLC invariants NoPanic / WFInvariant / EmittedBalanced on the pipeline, edit and body models; validity monitor (Trace_Valid.tla) and trace validation of TLC-generated edit histories (Trace_Edits.tla); Types.tla behaviours (types collected and added again) must emit without panic and validate",
         text="Walrus.tla (parse, GC worklist, section-ordered emission with index assignment) is model-checked over all families and pass sequences: every get_*_index of an emit action finds an assigned id (NoPanic). Edits.tla defines the well-formed edits (guards = no dangling reference) and TLC checks they keep the module closed. On the implementation every valid input x {none, GC} x names x producers must complete and validate, and TLC-generated well-formed edit scripts (every enabled single edit of sampled real modules plus random walks) are replayed through the public API, validated step by step and closed by emit and gc;emit which must validate.",
         note="Trusted: wasmparser validator with walrus's feature list, TLC. DWARF-on emission is exercised by C10's check. One known finding (GC vs. declaring passive segment).",
         design_ref="DESIGN.md §5 C02"),
@@ -51,13 +51,13 @@ CHECKS = {
         note="Trusted: TLC, the public accessors used for the snapshot, wasmparser validator. The behavioural effect is derived from the state relation (callers keep naming the same id), not executed.",
         design_ref="DESIGN.md §5 C18"),
     "C13": dict(
-        technique="names relation (forward / converse, modulo sigma and the observed local map) evaluated by TLC on recorded round trips (Trace_Names.tla)",
+        technique="names relation (forward / converse, modulo sigma and the observed local map) evaluated by TLC on recorded round trips (Trace_Names.tla); Locals.tla behaviours replayed through FunctionBuilder with named locals (Trace_Locals.tla, name conjuncts)",
         text="For every recorded round trip (with and without GC) TLC checks that each input name of a still-emitted entity (module, function, local, type, table, memory, global, element, data) is attached to the renumbered entity in the output name section and that every output name has such an origin (no migration); local names use the local correspondence observed by aligning local operands of the surviving operators; tolerated: unused locals/parameters, label/field/tag subsections, merged types.",
         note="Trusted: wasmparser name-section reader, TLC. The design-level part is the renumbering model (Walrus.tla); the names relation itself is only checked on the implementation. Functions whose local alignment is ambiguous are skipped for local names (counted in the evidence).",
         design_ref="DESIGN.md §5 C13"),
     "C17": dict(
-        technique="trace validation of recorded collection-API histories against the actions of Arena.tla (TLC); histories enumerated exhaustively by TLC",
-        text="Arena.tla (tombstone arena + de-duplicating arena) is model-checked with the identifier-stability properties; all operation histories of the bounded length are enumerated by TLC and replayed, with random long histories, on each of the 11 real collections through the public API; every call's result (returned id, get result or absence/panic, iteration contents and order, len, lookup by value) is validated step by step by TLC with spec ids bound to real ids at allocation (a recycled id is rejected).",
+        technique="trace validation of recorded collection-API histories against the actions of Arena.tla (TLC); histories enumerated exhaustively by TLC; Types.tla (the type interner in its setting) model-checked and its behaviours replayed on real Modules (Trace_Types.tla)",
+        text="Arena.tla (tombstone arena + de-duplicating arena) is model-checked with the identifier-stability properties; all operation histories of the bounded length are enumerated by TLC and replayed, with random long histories, on each of the 11 real collections through the public API; every call's result (returned id, get result or absence/panic, iteration contents and order, len, lookup by value) is validated step by step by TLC with spec ids bound to real ids at allocation (a recycled id is rejected). The collections are also driven through their by-name and typed entry points and through iter_mut. Types.tla: type section with duplicate entries, entry types, builder-made functions, GC and find/add agreement; after every step the module's types must be the model's.",
         note="Trusted: TLC. A panic on a dead id counts as 'absent' (the property allows a panic or an explicit none). Custom-section ids are read from their Debug output.",
         design_ref="DESIGN.md §5 C17"),
     "C19": dict(
@@ -66,12 +66,12 @@ CHECKS = {
         note="Trusted: wasmparser, TLC, the public accessor functions used for the state snapshot.",
         design_ref="DESIGN.md §5 C19"),
     "C20": dict(
-        technique="valid_F(in) => valid_F(out) over a family of reduced feature sets judged by TLC (Trace_Features.tla); encoding-choice model Features.tla with validator facts generated by probing",
+        technique="valid_F(in) => valid_F(out) over a family of reduced feature sets judged by TLC (Trace_Features.tla); encoding-choice model Features.tla with validator facts generated by probing; encoding-level rules from the proposals' binary format (segment flags, data-count section) for encodings the validator does not gate",
         text="Features.tla states walrus's encoding choices (element/data flags, data-count rule, block-type form, table immediates) and TLC checks that none needs a proposal the input's encoding did not need, against per-encoding requirements generated by probing wasmparser (FeatureFacts.tla). On the implementation, input and output of each round trip (with and without GC) are validated under all proposals minus every subset of size <= 2 and under the greedily minimal set; MVP-only modules and one family per proposal are generated.",
         note="Trusted: wasmparser's feature-gated validator defines 'validates under F'. Subsets larger than two removals are covered only through the minimal set.",
         design_ref="DESIGN.md §5 C20"),
     "C08": dict(
-        technique="trace validation of recorded Module histories against the actions of Lifecycle.tla (TLC), design spec model-checked (EmitIsPure, RepeatedEmitsEqual, Fixpoint)",
+        technique="trace validation of recorded Module histories against the actions of Lifecycle.tla (TLC), design spec model-checked (EmitIsPure, RepeatedEmitsEqual, Fixpoint); Producers.tla RoundTripFixpoint with replay on real Modules",
         text="Lifecycle.tla models parse / emit / gc / reparse with respect to custom sections, names, producers, DWARF and the emitted bytes; TLC checks that Emit leaves the module state unchanged, that consecutive emits are equal and that reparse;emit is a fixpoint. Recorded histories (three scripts x two switch vectors per input) carry, per event, the Module's observable custom sections and the digest and inventory of the emitted bytes; each event is replayed as IsEvent /\\ bind /\\ spec action. Digests from three further OS processes are joined into the trace.",
         note="Trusted: TLC; FNV-1a 64-bit digests stand for byte equality (collision probability negligible for this purpose). 'Across processes' is a finite number of launches. One known finding (reparse after GC, same root cause as C06's).",
         design_ref="DESIGN.md §5 C08"),
@@ -81,8 +81,8 @@ CHECKS = {
         note="Trusted: wasmparser section reader, TLC, 64-bit digests. 'Unknown' = not name, not producers, not .debug*.",
         design_ref="DESIGN.md §5 C12"),
     "C14": dict(
-        technique="differential section-inventory relation over the whole 2^5 switch space evaluated by TLC (Trace_Config.tla) + trace validation against Lifecycle.tla",
-        text="Each input is run under all 32 vectors of the boolean switches (names, producers, dwarf, preserve_code_transform, only_stable_features); TLC requires, for every pair of vectors differing in exactly one switch, that the emitted section inventories differ by exactly the section that switch governs; that a switched-off section is absent; that the producers fields are preserved in order with walrus recorded exactly once (also after repeated round trips, via the Lifecycle histories); and that the parse callback ran once per successful and never on a failed parse.",
+        technique="differential section-inventory relation over the whole 2^5 switch space evaluated by TLC (Trace_Config.tla) + trace validation against Lifecycle.tla; Producers.tla (ModuleProducers API, parse recording walrus, emit under the switch) model-checked and all behaviours up to the bound replayed (Trace_Producers.tla)",
+        text="Each input is run under all 32 vectors of the boolean switches (names, producers, dwarf, preserve_code_transform, only_stable_features); TLC requires, for every pair of vectors differing in exactly one switch, that the emitted section inventories differ by exactly the section that switch governs; that a switched-off section is absent; that the producers fields are preserved in order with walrus recorded exactly once (also after repeated round trips, via the Lifecycle histories); and that the parse callback ran once per successful and never on a failed parse. The switch space is 2^6 (names, producers, dwarf, preserve_code_transform, only_stable_features, synthetic names) plus strict_validate off and the order generate_dwarf -> preserve_code_transform(false); inputs include modules carrying synthesized DWARF and code-less modules with a minimal unit.",
         note="Trusted: wasmparser, TLC. DWARF generation is switched on only for inputs without debug sections or with well-formed synthesized DWARF. Lifecycle.tla plays the role DESIGN.md gave to Config.tla.",
         design_ref="DESIGN.md §5 C14"),
     "C03": dict(
@@ -96,12 +96,12 @@ CHECKS = {
         note="Trusted: wasmparser 0.214 (decoder + validator), TLC. Behavioural equality is derived from the structural relation (Iso of the reachable sub-module), not executed here (see C01). One known finding (see known_findings.json).",
         design_ref="DESIGN.md §5 C06"),
     "C07": dict(
-        technique="TLA+ reachability recomputed on the emitted module by TLC (Trace_GC.tla), second-run stuttering; design invariants GcExact / SecondGcIsNoOp on Walrus.tla",
+        technique="TLA+ reachability recomputed on the emitted module by TLC (Trace_GC.tla), second-run stuttering; design invariants GcExact / SecondGcIsNoOp on Walrus.tla; Types.tla NoGarbageAfterGc / GcIdempotent model-checked, behaviours replayed on real Modules (Trace_Types.tla); GC also judged on modules built and edited through the API",
         text="On every recorded parse;gc;emit run TLC recomputes Reach on the *output* abstract module and requires that it covers every emitted import, function, table, memory, global and segment (tolerated residue: one memory when a data segment is emitted), that every emitted type is used, and that parse;gc;gc;emit produces the same bytes; the design model proves the same for the worklist algorithm on all family modules.",
         note="Trusted: wasmparser 0.214, TLC. Bounded by the families and by sampling of generated modules.",
         design_ref="DESIGN.md §5 C07"),
     "C04": dict(
-        technique="TLA+ relation Iso(in,out,sigma) (ModuleGraph.tla) model-checked on the Walrus.tla pipeline model and evaluated by TLC on recorded round trips (trace validation)",
+        technique="TLA+ relation Iso(in,out,sigma) (ModuleGraph.tla) model-checked on the Walrus.tla pipeline model and evaluated by TLC on recorded round trips (trace validation); Types.tla ParseMapAgrees / FuncsTyped with replay on real Modules (signatures)",
         text="Walrus.tla (parse/emit pipeline) is model-checked exhaustively over the four input families of Families.tla with invariants OutputIsIso and NothingDroppedWithoutPass; the same families are concretised to wasm and, together with all valid fixtures and generated modules (full, stable-only and MVP feature profiles), round-tripped through the real code; TLC evaluates Iso on every recorded (in, out, sigma) triple.",
         note="Trusted: wasmparser 0.214 as decoder of both binaries; TLC. The renumbering sigma is proposed from walrus's own index maps and checked, never assumed. Bounded: family sizes in Families.tla; generated modules are samples.",
         design_ref="DESIGN.md §5 C04"),
